@@ -106,6 +106,30 @@ class MathNP:
         return LOGEXP.apply_g(v)
 
     @staticmethod
+    def asarray(v, dtype=None):
+        if dtype is not None:
+            raise Unsupported('np.asarray with dtype on a scalar proxy')
+        return v
+
+    @staticmethod
+    def piecewise(x, condlist, funclist, *a, **kw):
+        """scalar np.piecewise: the last true condition selects the function (extra function = default, else 0); the
+        result has the dtype of x -- an integer-typed x truncates the selected value toward zero (C cast)"""
+        from .symex import sint_trunc
+        if not isinstance(condlist, (list, tuple)):
+            condlist = [condlist]
+        funcs = list(funclist)
+        default = funcs[len(condlist)] if len(funcs) == len(condlist) + 1 else 0
+        chosen = default
+        for cnd, fn in zip(condlist, funcs):
+            if bool(cnd):
+                chosen = fn
+        val = chosen(x, *a, **kw) if callable(chosen) else chosen
+        if isinstance(x, (SInt, int)) and not isinstance(x, bool):
+            return sint_trunc(val) if is_sym(val) else int(val)
+        return val
+
+    @staticmethod
     def log2(v):
         if not is_sym(v):
             return math.log2(v)
@@ -149,3 +173,4 @@ def _rpow(self, base):
 
 
 SReal.__rpow__ = _rpow
+SInt.__rpow__ = lambda self, base: _rpow(SReal(z3.ToReal(self.z)), base)      # 2 ** <integer-typed scale value>
